@@ -19,6 +19,12 @@ def C18(chk):
     if mc.res.violated:
         return spec_violation(chk, mc, "MC_Codepoints")
     replay(chk, mc, "MC_Codepoints(W=%d)" % w, harness_args=["--window", str(w)])
+    # the same statements for ALL natural numbers, proved with TLAPS (removes the small-window argument at model level)
+    from common import run_tlapm
+    n_obl = run_tlapm("CodepointsProof.tla")
+    chk.cov["obligations"] = n_obl
+    chk.cov["discharged"] = n_obl
+    chk.add_part("TLAPS:CodepointsProof", {"obligations_proved": n_obl, "theorems": ["RangeTrichotomy", "RangeCoherent", "RangeMirrored", "SingleTrichotomy", "SortedIsMonotone"]})
     chk.cov["exhaustive"] = True
     chk.cov["rule"] = ("every entry (single, range start<=end) x every code point of a window of %d values: the 12 hand-written "
                        "operators; every sorted table over the window x every code point: binary search; each replayed against "
@@ -523,6 +529,30 @@ def C15(chk):
     finally:
         import shutil
         shutil.rmtree(scratch, ignore_errors=True)
+    # variations of the real data through the real build (generators -> tables -> look-ups), whatever the table layout
+    if not q or os.environ.get("VERIF_VARIATIONS"):
+        import perturb
+        from l1 import TOOL_FIELDS
+        for k in range(2):
+            res, changes = perturb.run_variation(chk, chk.seed * 100 + k)
+            if not res["tiled"]:
+                tool_error("variation: runs do not tile the code space")
+            nbad = 0
+            for b in res["bad"]:
+                if set(b["fields"]) & TOOL_FIELDS:
+                    tool_error("variation: oracle/spec inconsistency %s" % b["fields"])
+                nbad += 1
+                if nbad <= 5:
+                    e = b["event"]
+                    chk.violation("variation %d of the UCD data (%d changes): tables built by the real generators disagree with the varied data on "
+                                  "U+%04X..U+%04X: %s" % (k, changes, e["lo"], e["hi"], ",".join(b["fields"])),
+                                  {"layer": "L1-variation", "variation_seed": chk.seed * 100 + k, "fields": b["fields"], "event": e})
+            chk.cov["states"] += res["tlc"]["distinct"]
+            chk.cov["transitions"] += res["tlc"]["generated"]
+            chk.cov["traces_validated_against_impl"] += 1
+            chk.cov["evaluations"] += res["info"]["events"]
+            chk.add_part("L1 on variation %d" % k, {"changes_to_the_ucd_files": changes, "events": res["info"]["events"], "mismatching_events": len(res["bad"]),
+                                                    "stats": res["stats"]})
     # the pinned data sets through the real generators are covered by L1 (every code point of every generated table)
     apply_l1(chk, ["id", "ff", "vir", "greek", "hebrew", "kana", "ld", "rd", "wm", "osp", "bidi"], nontrivial_key="runs")
     chk.cov["exhaustive"] = True
